@@ -100,5 +100,5 @@ func bigLogeqv(s *slip.Scope, args slip.List, depth int) slip.Object {
 	var bi big.Int
 	bi.SetBytes(buf)
 
-	return (*slip.Bignum)(&bi)
+	return slip.IntegerFromBig(&bi)
 }
